@@ -107,9 +107,18 @@ package eni
 //@ guard call DeleteNetworkInterface in factoryDisposeWorker: c06can
 
 //@ # ---- per-interface address quota: a request is queued only while tracked + queued addresses stay within the cap ----
+//@ for C01 C04 C06
+//@ pure func holds4(l *Local, pod string) bool = exists k netip.Addr :: k in l.ipv4 && l.ipv4[k] != nil && l.ipv4[k].podID == pod
+//@ pure func holds6(l *Local, pod string) bool = exists k netip.Addr :: k in l.ipv6 && l.ipv6[k] != nil && l.ipv6[k].podID == pod
 //@ func Local.Allocate
+//@   requires l != nil && cni != nil
 //@   loop 1 unroll 2
 //@   loop 2 unroll 2
+//@   # a pod that already holds an address on this interface is never refused for lack of room (single-stack; the repeated
+//@   # ADD is answered from what the pod holds, whatever the fill level of the interface)
+//@   ensures cni.PodID != "" && isptr(request, LocalIPRequest) && !asptr(request, LocalIPRequest).NoCache && l.enableIPv4 && !l.enableIPv6 && old(holds4(l, cni.PodID)) ==> !(result0 == nil && len(result1) > 0 && result1[0].Condition == 0)
+//@   ensures cni.PodID != "" && isptr(request, LocalIPRequest) && !asptr(request, LocalIPRequest).NoCache && l.enableIPv6 && !l.enableIPv4 && old(holds6(l, cni.PodID)) ==> !(result0 == nil && len(result1) > 0 && result1[0].Condition == 0)
+//@ for C06
 //@ guard store Local.allocatingV4 in Allocate: len(value) <= len(target.allocatingV4) || len(target.ipv4) + len(value) <= target.cap
 //@ guard store Local.allocatingV6 in Allocate: len(value) <= len(target.allocatingV6) || len(target.ipv6) + len(value) <= target.cap
 
